@@ -186,6 +186,18 @@ outer:
 
 	// create empty reassemblers
 	ip4defragmenter := ip4defrag.NewIPv4Defragmenter()
+	type (
+		ip4FragmentKey struct {
+			src, dst [4]byte
+			id       uint16
+			protocol layers.IPProtocol
+		}
+		ip4FragmentSources struct {
+			sources  []*pcapmetadata.PcapMetadata
+			lastSeen time.Time
+		}
+	)
+	ip4Fragments := map[ip4FragmentKey]ip4FragmentSources{}
 
 	streamFactory := &streams.StreamFactory{}
 	tcpAssembler := [0x100]*reassembly.Assembler{}
@@ -369,13 +381,25 @@ outer:
 				switch network.LayerType() {
 				case layers.LayerTypeIPv4:
 					ip4defragmenter.DiscardOlderThan(tsTimeouted)
-					defragmented, err := ip4defragmenter.DefragIPv4WithTimestamp(network.(*layers.IPv4), ts)
+					ip4 := network.(*layers.IPv4)
+					fragmentKey := ip4FragmentKey{id: ip4.Id, protocol: ip4.Protocol}
+					copy(fragmentKey.src[:], ip4.SrcIP.To4())
+					copy(fragmentKey.dst[:], ip4.DstIP.To4())
+					defragmented, err := ip4defragmenter.DefragIPv4WithTimestamp(ip4, ts)
 					if err != nil {
 						pmd := pcapmetadata.FromPacketMetadata(packet.CaptureInfo())
 						log.Printf("Bad packet %s:%d: %v", pmd.PcapInfo.Filename, pmd.Index, err)
 						return
 					}
 					if defragmented == nil {
+						// remember where the fragment came from, the reassembled packet refers to all of them
+						fragments := ip4Fragments[fragmentKey]
+						if len(fragments.sources) != 0 && fragments.lastSeen.Before(tsTimeouted) {
+							fragments.sources = nil
+						}
+						fragments.sources = append(fragments.sources, pcapmetadata.FromPacketMetadata(packet.CaptureInfo()))
+						fragments.lastSeen = ts
+						ip4Fragments[fragmentKey] = fragments
 						return
 					}
 					if defragmented != network {
@@ -401,7 +425,13 @@ outer:
 						md.CaptureLength = len(newPacket.Data())
 						md.Length = len(newPacket.Data())
 						md.Timestamp = ts
-						// TODO: add metadata from previous packets
+						// the packet consists of all its fragments, the one that completed it is listed last
+						if fragments := ip4Fragments[fragmentKey]; !fragments.lastSeen.Before(tsTimeouted) {
+							for _, source := range fragments.sources {
+								pcapmetadata.AddPcapMetadata(&md.CaptureInfo, source.PcapInfo, source.Index)
+							}
+						}
+						delete(ip4Fragments, fragmentKey)
 						pcapmetadata.AddPcapMetadata(&md.CaptureInfo, pmd.PcapInfo, pmd.Index)
 						packet = &Packet{
 							ci: md.CaptureInfo,
